@@ -78,14 +78,14 @@ class SymArena:
 
     def live(self, i): return self.stamp[i] >= 0
 
-    def value(self, spare=1):
+    def value(self, spare=1, cap=None):
         nodes = []
         for i in range(self.N):
             links = [opt_nodeid(self.some[L][i], self.idx[L][i], self.lst[L][i]) for L in LINKS]
             dd = S(z3.If(self.live(i), BV64(0), BV64(1)), 'isize')
             data = En('NodeData', dd, {0: (Opq(self.data[i]),), 1: (opt_usize(self.nf_some[i], self.nf_idx[i], REPR['nf_nonzero']),)})
             nodes.append(Agg('Node', links + [Agg('NodeStamp', (S(self.stamp[i], 'i16'),)), data]))
-        vec = VecV(S(self.N, 'usize'), self.N + spare, nodes + [UNINIT] * spare)
+        vec = VecV(S(self.N, 'usize'), (self.N + spare) if cap is None else cap, nodes + [UNINIT] * spare)
         return Agg('Arena', (vec, opt_usize(self.ff_some, self.ff_idx, REPR['free_ends_nonzero']), opt_usize(self.lf_some, self.lf_idx, REPR['free_ends_nonzero'])))
 
     def sel(self, arr, idx1): return sel(arr, idx1)
